@@ -41,6 +41,9 @@ SKIP = {'interface', 'display', 'display_tall', 'display_wide', 'to_html', 'to_h
 SELECTORS = ('loc', 'iloc', 'bloc', 'drop', 'mask', 'masked_array', 'assign', 'astype')
 
 
+ARG_ARRAYS = {}
+
+
 def caller_arrays():
     '''fresh, writeable arrays the "caller" keeps a reference to'''
     return {
@@ -290,6 +293,43 @@ def enumerate_ops(c):
                     return v(0) + x
                 return v('a').search()
             ops.append((f'via:{name}', call))
+    # operations handed a writeable array the caller keeps: nothing in the result may share memory with it
+    def W(shape, dtype='int64'):
+        a = np.arange(int(np.prod(shape)) if shape else 1, dtype=dtype).reshape(shape) + 500
+        ARG_ARRAYS['arg%d' % len(ARG_ARRAYS)] = a
+        return a
+    if issubclass(cls, sf.Frame):
+        ops += [
+            ('arg:assign.iloc[:,0:2](2d-array)', lambda x: x.assign.iloc[:, 0:2](W((x.shape[0], min(2, x.shape[1]))))),
+            ('arg:assign.iloc[:,1:](2d-array)', lambda x: x.assign.iloc[:, 1:](W((x.shape[0], max(0, x.shape[1] - 1))))),
+            ('arg:assign.getitem[first-two](2d-array)', lambda x: x.assign[list(x.columns)[:2]](W((x.shape[0], min(2, x.shape[1]))))),
+            ('arg:assign.iloc[:,:](2d-array)', lambda x: x.assign.iloc[:, :](W(x.shape))),
+            ('arg:assign.iloc[:,0](1d-array)', lambda x: x.assign.iloc[:, 0](W((x.shape[0],)))),
+            ('arg:assign.iloc[0](1d-array)', lambda x: x.assign.iloc[0](W((x.shape[1],)))),
+            ('arg:assign.loc[:,first](1d-array)', lambda x: x.assign.loc[:, first_label(x, 1)](W((x.shape[0],), 'float64'))),
+            ('arg:relabel(index=array)', lambda x: x.relabel(index=W((x.shape[0],)))),
+            ('arg:relabel(columns=array)', lambda x: x.relabel(columns=W((x.shape[1],)))),
+            ('arg:reindex(index=array)', lambda x: x.reindex(index=W((x.shape[0],)), fill_value=0)),
+            ('arg:add(2d-array)', lambda x: x.iloc[:, :0].shape and x * 0 if any(k in 'USOMm' for k in (d.kind for d in x.dtypes.values)) else x + W(x.shape)),
+            ('arg:insert_after(series-of-array)', lambda x: x.insert_after(first_label(x, 1), sf.Series(W((x.shape[0],)), index=x.index, name='zz'))),
+            ('arg:fillna(frame-of-array)', lambda x: x.fillna(sf.Frame(W(x.shape), index=x.index, columns=x.columns))),
+        ]
+    elif issubclass(cls, sf.Series):
+        ops += [
+            ('arg:assign.iloc[:](1d-array)', lambda x: x.assign.iloc[:](W((len(x),)))),
+            ('arg:assign.iloc[1:](1d-array)', lambda x: x.assign.iloc[1:](W((max(0, len(x) - 1),)))),
+            ('arg:relabel(array)', lambda x: x.relabel(W((len(x),)))),
+            ('arg:reindex(array)', lambda x: x.reindex(W((len(x),)), fill_value=0)),
+            ('arg:isin(array)', lambda x: x.isin(W((2,)))),
+            ('arg:fillna(series-of-array)', lambda x: x.fillna(sf.Series(W((len(x),)), index=x.index))),
+        ]
+    elif issubclass(cls, sf.Index) and not issubclass(cls, (sf.IndexGO,)):
+        ops += [
+            ('arg:union(array)', lambda x: x.union(W((2,)))),
+            ('arg:intersection(array)', lambda x: x.intersection(W((2,)))),
+            ('arg:isin(array)', lambda x: x.isin(W((2,)))),
+            ('arg:constructor(array)', lambda x: type(x)(W((3,)) if x.dtype.kind not in 'M' else W((3,)).astype('datetime64[D]'))),
+        ]
     # operators, pickle, copies
     ops += [('op:neg', lambda x: -x), ('op:add-self', lambda x: x + x), ('op:eq-self', lambda x: x == x), ('op:mul2', lambda x: x * 2), ('op:radd', lambda x: 1 + x),
             ('op:invert', lambda x: ~x), ('op:abs', lambda x: abs(x)), ('op:matmul', lambda x: x @ x),
@@ -454,13 +494,14 @@ def run_case(case, ctx):
     for opname, fn in mine:
         ctx.transition()
         info = dict(seed=seed_name, operation=opname)
+        ARG_ARRAYS.clear()
         try:
             r = materialise(fn(seed))
             err = None
         except Exception as e:
             r, err = None, type(e).__name__
         ctx.outcome('raises' if err else 'ok')
-        ok, conts = check_after(ctx, type(seed).__name__, opname, r, [(seed, s0)], caller, info)
+        ok, conts = check_after(ctx, type(seed).__name__, opname, r, [(seed, s0)], dict(caller, **ARG_ARRAYS), info)
         if not ok:
             continue
         if isinstance(r, list) and len(r) == 2 and isinstance(r[0], str) and r[0] == 'ROUNDTRIP':
@@ -488,11 +529,12 @@ def run_case(case, ctx):
             for opname, fn in ops2:
                 ctx.transition()
                 info = dict(seed=seed_name, derived_by=via, derived_class=type(c).__name__, operation=opname)
+                ARG_ARRAYS.clear()
                 try:
                     r = materialise(fn(c))
                 except Exception:
                     r = None
-                ok, conts = check_after(ctx, type(c).__name__, opname, r, [(seed, s0), (c, cs)], caller, info)
+                ok, conts = check_after(ctx, type(c).__name__, opname, r, [(seed, s0), (c, cs)], dict(caller, **ARG_ARRAYS), info)
                 if ok and conts:
                     ctx.nontriv((seed_name, key[0], via, opname))
     ctx.extra['not_driven_ops'] = max(ctx.extra.get('not_driven_ops', 0), len(not_driven))
